@@ -88,6 +88,16 @@ func c16(env *core.Env) {
 	logs := [2]*memberLog{{}, {}}
 	dig := reg.Sha256([]byte("content"))
 	memberErr := [2]error{ociregistry.ErrBlobUnknown, errors.New("member 1 failed")}
+	// (a member may fail for reasons of its own that look like a cancellation: its own
+	// deadline, its own HTTP client giving up; the caller has cancelled nothing)
+	for i := range memberErr {
+		switch c.Int("member.errkind", 4) {
+		case 1:
+			memberErr[i] = fmt.Errorf("member %d gave up: %w", i, context.DeadlineExceeded)
+		case 2:
+			memberErr[i] = fmt.Errorf("member %d: upstream: %w", i, context.Canceled)
+		}
+	}
 	gate := func(i int, ctx context.Context) error {
 		l := logs[i]
 		l.called = true
@@ -263,7 +273,21 @@ func c16(env *core.Env) {
 				env.Failf(class("winner-context-cancelled-early"), "the chosen member's context was cancelled while the returned reader was still open. %s", describe())
 			}
 		}
-		io.ReadAll(br)
+		// reading - a part, everything, past the end - is use, not release: the context
+		// stays live until Close
+		switch c.Int("read.how", 4) {
+		case 0:
+		case 1:
+			br.Read(make([]byte, 1))
+		case 2:
+			io.ReadAll(br)
+		case 3:
+			io.ReadAll(br)
+			br.Read(make([]byte, 4)) // again, at the end
+		}
+		if logs[winner].ctx.Err() != nil && !cancelled {
+			env.Failf(class("winner-context-cancelled-early"), "the chosen member's context was cancelled by reading from the returned reader, before it was closed. %s", describe())
+		}
 		br.Close()
 		// ... and is cancelled afterwards (whether or not the member's Close reported an error)
 		if logs[winner].ctx.Err() == nil {
